@@ -15,6 +15,7 @@ import (
 	"sync"
 	"time"
 
+	gmsl "github.com/matrix-org/gomatrixserverlib"
 	"github.com/matrix-org/gomatrixserverlib/fclient"
 	"github.com/matrix-org/gomatrixserverlib/spec"
 	"github.com/miekg/dns"
@@ -397,6 +398,10 @@ func c16WellKnown(c *mon.Ctx, st *scriptedTransport) {
 		// the two obsolete HTTP-date forms every recipient has to understand (RFC 7231 section 7.1.1.1)
 		"expires-rfc850":  {"Expires": exp.Format("Monday, 02-Jan-06 15:04:05 MST")},
 		"expires-asctime": {"Expires": exp.Format("Mon Jan _2 15:04:05 2006")},
+		// a directive whose quoted argument merely contains the text "max-age=5": there is no max-age directive
+		"quoted-argument-mentions-max-age": {"Cache-Control": `community="UCI,max-age=5,x"`, "Expires": exp.Format("Mon, 02 Jan 2006 15:04:05 MST")},
+		// the quoted-string form of the argument, which recipients ought to accept
+		"max-age-quoted": {"Cache-Control": `max-age="100"`, "Expires": exp.Format("Mon, 02 Jan 2006 15:04:05 MST")},
 	}
 	expS := exp.Format("Mon, 02 Jan 2006 15:04:05 MST")
 	extra := map[string][][2]string{
@@ -441,7 +446,7 @@ func c16WellKnown(c *mon.Ctx, st *scriptedTransport) {
 			switch name {
 			case "none", "malformed":
 				ok = res.CacheExpiresAt == 0
-			case "expires", "expires-rfc850", "expires-asctime":
+			case "expires", "expires-rfc850", "expires-asctime", "quoted-argument-mentions-max-age":
 				ok = res.CacheExpiresAt == exp.Unix()
 			case "max-age", "both":
 				ok = in(before+3600, after+3600)
@@ -455,7 +460,7 @@ func c16WellKnown(c *mon.Ctx, st *scriptedTransport) {
 				ok = in(before+1, after+1)
 			case "both-expires-past":
 				ok = in(before+600, after+600)
-			case "two-cache-control-lines", "two-cache-control-lines-reversed", "tab-after-comma", "body-names-an-expiry", "body-names-an-expiry-lower-case":
+			case "two-cache-control-lines", "two-cache-control-lines-reversed", "tab-after-comma", "body-names-an-expiry", "body-names-an-expiry-lower-case", "max-age-quoted":
 				ok = in(before+100, after+100)
 			case "max-age-max-int64", "max-age-beyond-int64":
 				// max-age is there, so it wins over the (past) Expires; however it is represented, it is far in the future
@@ -814,6 +819,44 @@ func c16ClientSequences(c *mon.Ctx) {
 			s.Close()
 		}
 	}()
+	// invalid server names are refused by the federation client too, whichever way it builds its request: a name with a
+	// userinfo part in front of a reachable address must not end up as a request to that address
+	if c.Shard == 0 {
+		signer := gen.NewIdentity(c.RandShared("c16-signer"), "me.example", "ed25519:1")
+		fc := fclient.NewFederationClient([]*fclient.SigningIdentity{{ServerName: "me.example", KeyID: gmsl.KeyID(signer.KeyID), PrivateKey: signer.Priv}}, fclient.WithSkipVerify(true), fclient.WithTimeout(5*time.Second))
+		for _, prefix := range []string{"evil@", "user:pass@", "@", "a%40b@"} {
+			name := prefix + names[0]
+			c.Case("client:invalid-name-with-userinfo", map[string]any{"name": name}, func() {
+				c.Nontrivial("client-userinfo|" + prefix)
+				for api, call := range map[string]func(ctx context.Context) error{
+					"LookupProfile": func(ctx context.Context) error {
+						_, err := fc.LookupProfile(ctx, "me.example", spec.ServerName(name), "@a:b.example", "")
+						return err
+					},
+					"MakeJoin": func(ctx context.Context) error {
+						_, err := fc.MakeJoin(ctx, "me.example", spec.ServerName(name), "!r:b.example", "@a:me.example")
+						return err
+					},
+					"GetServerKeys": func(ctx context.Context) error { _, err := fc.GetServerKeys(ctx, spec.ServerName(name)); return err },
+				} {
+					mu.Lock()
+					hits = nil
+					mu.Unlock()
+					ctx, cancel := context.WithTimeout(context.Background(), 5*time.Second)
+					err := call(ctx)
+					cancel()
+					mu.Lock()
+					got := append([]hit{}, hits...)
+					mu.Unlock()
+					c.Count("client_invalid_name_requests")
+					if len(got) > 0 {
+						c.Failf("client:invalid-name-not-refused:userinfo", "%s for the invalid server name %q (err=%v) sent a request to %s (Host %q)", api, name, err, names[0], got[0].host)
+						return
+					}
+				}
+			})
+		}
+	}
 	n := c.Scale(6, 60)
 	for k := 0; k < n; k++ {
 		sr := r.Fork("seq")
